@@ -154,7 +154,15 @@ def match_cells(exp_cells, got_cells, tol):
 
 
 # ----------------------------------------------------------------- validity
-def check_valid(s, allow_unused=False, dup_tol=None):
+def shape_ratio(s):
+    """measure / diameter^dim per cell (1/d! for the reference simplex,
+    tiny for slivers)."""
+    meas, _ = s.meas
+    h = G.diameters(s.p, s.t, s.kind)
+    return meas / np.maximum(h, 1e-300) ** G.DIM[s.kind]
+
+
+def check_valid(s, allow_unused=False, dup_tol=None, deg_ratio=1e-12):
     if s.bad_dtype is not None:
         raise Bad("tags-index-array-not-integer", what=s.bad_dtype[0],
                   name=s.bad_dtype[1], dtype=s.bad_dtype[2])
@@ -193,7 +201,7 @@ def check_valid(s, allow_unused=False, dup_tol=None):
                   example=[int(used[a]), int(used[b])])
     meas, folded = s.meas
     d = G.DIM[s.kind]
-    deg = meas < 1e-12 * np.maximum(h, 1e-300) ** d
+    deg = meas < deg_ratio * np.maximum(h, 1e-300) ** d
     if deg.any():
         raise Bad("valid-degenerate-cell", cells=np.nonzero(deg)[0][:5].tolist())
     if folded.any():
@@ -214,6 +222,24 @@ def check_valid(s, allow_unused=False, dup_tol=None):
 
 
 # ----------------------------------------------------------------- nesting
+def _outside_distance(kind, V, pts):
+    """Largest distance from the points (dim, n) to the simplex cell with
+    vertices V (nv, dim), 0 for points inside."""
+    X, _ = G.ref_coords(kind, np.repeat(V[:, :, None], pts.shape[1], axis=2),
+                        pts)
+    marg = G.inside_margin(kind, X)
+    worst = 0.0
+    nv = V.shape[0]
+    for j in np.nonzero(marg < 0)[0]:
+        if nv == 2:
+            faces = [[0], [1]]
+        else:
+            faces = [[k for k in range(nv) if k != drop] for drop in range(nv)]
+        worst = max(worst, min(G.dist_point_simplex(pts[:, j], V[f])
+                               for f in faces))
+    return worst
+
+
 def parent_map(old, new, probes):
     """Parent (old cell) of every new cell, from own point location of the
     child's centroid; all child vertices must lie in the parent."""
@@ -254,6 +280,16 @@ def parent_map(old, new, probes):
             for c in ch:
                 if G.contains_all(old.kind, Vold[:, :, pc],
                                   new.p[:, new.t[:, c]]) < -TOL:
+                    # reference coordinates of a sliver are ill-conditioned
+                    # (a margin of -1e-8 on a cell 1e-5 thick is a distance
+                    # of 1e-13): what counts is the physical distance
+                    if old.kind in G.SIMPLEX and _outside_distance(
+                            old.kind, Vold[:, :, pc],
+                            new.p[:, new.t[:, c]]) <= 1e-10 * scale_of(old.p):
+                        probes["nested-accepted-by-physical-distance"] = \
+                            probes.get("nested-accepted-by-physical-"
+                                       "distance", 0) + 1
+                        continue
                     raise Bad("nested-child-leaves-parent", child=int(c),
                               parent=int(pc), margin=mg)
     return parent
